@@ -357,7 +357,7 @@ class RaggedArray:
                     vli, ili = self._append(a, fdv, fdi, vlen+vlenincr)
                     vlenincr += vli
                     ilenincr += ili
-            except Exception as e:
+            except BaseException as e:
                 exception = e
                 # remove what may have been written for the subarray that
                 # failed, so that we keep the ones that were fully appended
@@ -371,6 +371,8 @@ class RaggedArray:
                                 size=self._values.size)
         self._update_readmetxt()
         if exception is not None:
+            if not isinstance(exception, Exception):
+                raise exception  # e.g. KeyboardInterrupt
             s = f"{exception}\nAppending of data did not (completely) " \
                 f"succeed. {ilenincr} subarrays were appended."
             raise AppendDataError(s) from exception
